@@ -85,6 +85,8 @@ pub fn fold(items: &[(Item, i32)]) -> Option<Mirror> {
 #[serde(tag = "kind", rename_all = "snake_case")]
 pub enum Case {
     Definition { variant: String },
+    /// `1 <name>^n to <SI base expression>^n`: the unit keeps its dimensions and scale under a power
+    DefinitionPower { variant: String, power: i32 },
     Word { word: String },
     Bare { variant: String, name: String },
     Expr { text: String, parts: Vec<Part> },
@@ -160,6 +162,53 @@ fn check_definition(variant: &str) -> CaseReport {
                 }
             }
             _ => CaseReport::fail(key, format!("definition-cast-fails:{}", variant), json!({"query": q, "got": results_json(&rs)})),
+        },
+    }
+}
+
+/// The definition under a power: `1 <name>^n` cast to the SI base expression of n times the
+/// reference dimension must succeed and give an accepted scale raised to n (a unit whose
+/// dimension table is only right at power +1 is caught here).
+fn check_definition_power(variant: &str, n: i32) -> CaseReport {
+    let v = vocab();
+    let u = v.unit(variant);
+    let key = format!("definition:{}^{}", variant, n);
+    if u.offset {
+        return CaseReport::pass(key, false, vec!["offset-scale(skipped)"]);
+    }
+    let mut dim = u.dim;
+    for d in dim.iter_mut() {
+        *d *= n;
+    }
+    let mut expect = Mirror::new();
+    expect.insert(u.key(), (n, u.bias));
+    let word = format!("{}^{}", u.probe, n);
+    match parse_compound(&word) {
+        Err(p) => return CaseReport::fail(key, "panic", json!({"name": word, "panic": p})),
+        Ok(Err(e)) => return CaseReport::fail(key, format!("definition-power-rejected:{}", variant), json!({"name": word, "error": e})),
+        Ok(Ok(m)) => {
+            if m != expect {
+                return CaseReport::fail(key, format!("definition-power-reading:{}", variant), json!({"name": word, "got": mirror_json(&m), "expected": mirror_json(&expect)}));
+            }
+        }
+    }
+    let q = format!("1 {} to {}", word, dim_spelling(&dim));
+    match run(shared_db(), &q) {
+        Err(p) => CaseReport::fail(key, "panic", json!({"query": q, "panic": p})),
+        Ok(rs) => match rs.as_slice() {
+            [R::Ok(val)] => {
+                if mirror_dim(&val.unit) != Some(dim) {
+                    return CaseReport::fail(key, format!("definition-power-dimension:{}", variant), json!({"query": q, "got": rs[0].brief(), "expected_dim": dim}));
+                }
+                let tscale = mirror_scale(&val.unit, reference_scales()).unwrap_or_else(BigRational::one);
+                let si = &val.value * &tscale;
+                if u.scales.iter().any(|s| crate::tool::rpow(s, n as i64).map(|x| x == si).unwrap_or(false)) {
+                    CaseReport::pass(key, true, vec![if n < 0 { "definition-negative-power" } else { "definition-positive-power" }])
+                } else {
+                    CaseReport::fail(key, format!("definition-scale:{}", variant), json!({"query": q, "got": si.to_string(), "power": n, "accepted_at_power_one": u.scales.iter().map(|s| s.to_string()).collect::<Vec<_>>()}))
+                }
+            }
+            _ => CaseReport::fail(key, format!("definition-power-cast-fails:{}", variant), json!({"query": q, "got": results_json(&rs)})),
         },
     }
 }
@@ -503,6 +552,7 @@ fn expr_parts(max_power: i32) -> impl Strategy<Value = Vec<Part>> {
 fn check(c: &Case) -> CaseReport {
     match c {
         Case::Definition { variant } => check_definition(variant),
+        Case::DefinitionPower { variant, power } => check_definition_power(variant, *power),
         Case::Word { word } => check_word(word),
         Case::Bare { variant, name } => check_bare(variant, name),
         Case::Expr { parts, .. } => check_expr(parts),
@@ -519,6 +569,9 @@ pub fn run_check(ctx: &Ctx) {
     let v = vocab();
     let defs: Vec<Case> = v.units.iter().map(|u| Case::Definition { variant: u.variant.clone() }).collect();
     ctx.run_list("definitions", &defs, check, |c| to_json(c));
+    let powers: &[i32] = ctx.tier.pick(&[-3, -2, -1, 2, 3][..], &[-6, -5, -4, -3, -2, -1, 2, 3, 4, 5, 6][..]);
+    let defp: Vec<Case> = v.units.iter().flat_map(|u| powers.iter().map(move |n| Case::DefinitionPower { variant: u.variant.clone(), power: *n })).collect();
+    ctx.run_list("definitions-under-powers", &defp, check, |c| to_json(c));
 
     let w = words();
     ctx.put("vocabulary_words", json!(w.all.len()));
